@@ -88,40 +88,54 @@ def mount_rows(ctx):
 
 
 def creation_fallback(R, ctx):
+    """decided on the std-level effects (metadata / created / modified / Local::now), whatever private helpers the chain is split into"""
     f = ctx.f
     b = ctx.body(r'^writers::file_log_writer::state::get_creation_timestamp$')
-    EFF = [r'try_get_creation_timestamp$', r'try_get_modification_timestamp$', r'get_current_timestamp$']
-    I = FDI(f, effects=EFF, no_inline=EFF)
-    rows = I.run(b.path)
+    EFF = [r'^std::fs::metadata$', r'^std::fs::Metadata::(created|modified)$', r'^chrono::Local::now$']
+    I = FDI(f, effects=EFF, max_steps=8000)
+    rows = I.run(b.path, arg_names=['path'])
     ok = True
     why = ''
     n = 0
+    kinds = set()
     for r in rows:
         if r.undecided:
-            ok, why = False, r.undecided
+            ok, why = False, 'UNDECIDED ' + r.undecided
             break
-        names = [e[0].split('::')[-1] for e in r.effects]
-        c = next((v for a, v in r.cond if 'try_get_creation_timestamp' in a and a.startswith('variant(')), None)
-        m = next((v for a, v in r.cond if 'try_get_modification_timestamp' in a and a.startswith('variant(')), None)
-        if c == 'Ok':
-            exp = ['try_get_creation_timestamp']
-        elif m == 'Ok':
-            exp = ['try_get_creation_timestamp', 'try_get_modification_timestamp']
+        okeff = {}
+        for a, v in r.cond:
+            info = r.atom_info.get(a, {})
+            if info.get('kind') == 'variant':
+                xs = T.strip_refs(info['of'])
+                if isinstance(xs, tuple) and xs[0] == 'eff':
+                    okeff[xs[2]] = (v == 'Ok')
+        created = [i + 1 for i, e in enumerate(r.effects) if e[0].endswith('::created') and okeff.get(i + 1)]
+        modified = [i + 1 for i, e in enumerate(r.effects) if e[0].endswith('::modified') and okeff.get(i + 1)]
+        for e in r.effects:
+            if e[0] == 'std::fs::metadata' and not T.is_input(e[2]['x'][0], 'path'):
+                ok, why = False, f"metadata is read of {e[1][0]}, not of the path parameter"
+        for i, e in enumerate(r.effects):
+            if e[0].endswith(('::created', '::modified')) and not T.eff_indices(e[2]['x'][0], r'^std::fs::metadata$'):
+                ok, why = False, f"{e[0]} is not applied to the metadata of the path"
+        x = I_x(r.result)
+        got_c = T.eff_indices(x, r'Metadata::created$')
+        got_m = T.eff_indices(x, r'Metadata::modified$')
+        got_n = T.eff_indices(x, r'^chrono::Local::now$')
+        if created:
+            kind, good = 'creation', bool(got_c & set(created)) and not got_m and not got_n
+        elif modified:
+            kind, good = 'modification', bool(got_m & set(modified)) and not got_c and not got_n
         else:
-            exp = ['try_get_creation_timestamp', 'try_get_modification_timestamp', 'get_current_timestamp']
-        if names != exp:
-            ok, why = False, f"creation={c} modification={m}: calls {names}, documented {exp}"
+            kind, good = 'now', bool(got_n) and not got_c and not got_m
+        if not good:
+            ok, why = False, f"creation time available: {bool(created)}, modification time available: {bool(modified)}: the result is {r.long(repr(r.result))[:120]}, documented: the {kind} time"
+        if not ok:
             break
-        # returned value is the payload of the last call
-        last = r.effects[-1]
-        if not (last[0].split('::')[-1] in repr(r.result)):
-            ok, why = False, f"result {r.result!r} is not the value of {last[0]}"
-            break
-        for e in r.effects[:2]:
-            if T.strip_refs(e[2]['x'][0]) != ('in', 'path'):
-                ok, why = False, f"{e[0]} not applied to the path parameter"
+        kinds.add(kind)
         n += 1
-    R.check('R09.3', 'get_creation_timestamp|fallback', ok and n >= 3, f"{n} rows: creation -> modification -> now",
+    if ok and kinds != {'creation', 'modification', 'now'}:
+        raise CheckError(f"R09.3: fallback chain not recognised (cases {sorted(kinds)})")
+    R.check('R09.3', 'get_creation_timestamp|fallback', ok and n >= 3, f"{n} rows: creation -> modification -> now (std-level effects)",
             f"fallback chain of get_creation_timestamp deviates: {why}", where=b.loc(), sample={'rows': n})
 
 
@@ -202,3 +216,13 @@ def stored_timestamp(R, ctx):
             return
         good += 1
     R.check('R09.4', f"{cb.path}|name-from-date", good >= 2, f"{good} rows: rotated name from the given date (else the file's creation time)", 'rows missing', where=cb.loc())
+
+
+def I_x(v):
+    if isinstance(v, Const):
+        return ('const', v.v)
+    if isinstance(v, Sym):
+        return v.x
+    if isinstance(v, Agg):
+        return ('agg', v.adt, v.variant, tuple(I_x(y) for y in v.fields))
+    return ('unknown',)
